@@ -189,7 +189,7 @@ fn main() {
     kvh::quiet_panics();
     let args = Args::parse();
     let mut rep = Report::new("C14", &args);
-    rep.rule = "cases: (1) operation histories of 5-30 statements (create / alias through a second name, a function argument or a closure capture / mutate / observe / slice / copy / deep_copy), each compared step by step as a full canonical heap dump — distinct = distinct statement sequences, non-trivial = at least 3 statements; (2) all ordered pairs of a 76-value boundary pool for == != < > <= >= and ValueKey eq/hash/cmp, number triples for the float-law hypotheses, key lookups through real 1- and 21-entry maps — non-trivial = the two values differ; (3) random sort inputs (lists, (key, tag) pairs, tuples, maps) — non-trivial = at least 2 elements".into();
+    rep.rule = "cases: (1) operation histories of 5-30 statements (create / alias through a second name, a function argument or a closure capture / mutate / observe / slice / copy / deep_copy), each compared step by step as a full canonical heap dump — distinct = distinct statement sequences, non-trivial = at least 3 statements; (2) all ordered pairs of a 76-value boundary pool for == != < > <= >= and ValueKey eq/hash/cmp, number triples for the float-law hypotheses, key lookups through real 1- and 21-entry maps — non-trivial = the two values differ; (3) copy / deep_copy on heap graphs: every tree with <= 4 nodes (thorough <= 5) over {tuple, list, map, leaf} and random trees of depth >= 3, each as a history that copies the tree and then mutates every list/map node of the original and of the copy; (4) random sort inputs (lists, (key, tag) pairs, tuples, maps) — non-trivial = at least 2 elements".into();
     let open: Vec<String> = rep.known_open().iter().filter_map(|e| e.get("id").and_then(|x| x.as_str()).map(|s| s.to_string())).collect();
     let drv = Driver::spawn(&args.driver);
     let mut cx = Ctx { rep, drv, open, known_counts: Default::default(), last_real: vec![], k_fail: 0, d_fail: 0 };
